@@ -161,12 +161,15 @@ pub(crate) async fn yield_once() {
 /// leave the write half of one connection here and the read half of the other in the fair
 /// queue, or a connected peer outside the rotation. So both sides do all their steps under this
 /// lock (and never wait for anything while they hold it).
-pub(crate) async fn register<'t, V>(
+pub(crate) fn register<'t, V>(
     table: &'t scc::HashMap<PeerIdentity, V>,
     peer_id: &PeerIdentity,
     peer: V,
 ) -> scc::hash_map::OccupiedEntry<'t, PeerIdentity, V> {
-    match table.entry_async(peer_id.clone()).await {
+    // (never awaited: a task that waits for a bucket asynchronously is handed the lock while it
+    // is suspended, and a blocking operation on the same bucket - `forget_conn` from inside a
+    // poll, `shutdown` from `Drop` - then waits for a task that may be queued on its own thread)
+    match table.entry_sync(peer_id.clone()) {
         scc::hash_map::Entry::Occupied(mut registered) => {
             registered.insert(peer);
             registered
@@ -225,9 +228,7 @@ impl GenericSocketBackend {
 
     /// The registered connection of a peer, if any
     pub(crate) async fn peer(&self, peer_id: &PeerIdentity) -> Option<Arc<Peer>> {
-        self.peers
-            .read_async(peer_id, |_, peer| peer.clone())
-            .await
+        self.peers.read_sync(peer_id, |_, peer| peer.clone())
     }
 
     pub(crate) async fn send_round_robin(&self, message: Message) -> ZmqResult<PeerIdentity> {
@@ -312,7 +313,7 @@ impl MultiPeerBackend for GenericSocketBackend {
             send_queue: futures::lock::Mutex::new(send_queue),
             _watcher_stop: Some(watcher_stop).filter(|_| self.fair_queue_inner.is_none()),
         });
-        let registered = register(&self.peers, peer_id, peer).await;
+        let registered = register(&self.peers, peer_id, peer);
         #[cfg(feature = "verif-hooks")]
         crate::__verif::yield_point("reg.after_table").await;
         self.round_robin.join(peer_id);
